@@ -27,6 +27,37 @@ func checkC02(c *Check, a *Anchors) {
 	extrasWin(c, a)
 	c01DepsJoined(c, a) // a task call returns only after the callee's dependencies have all finished: the dependency runner joins every goroutine it started
 	orderedRebuildSinglePass(c, a, "ordered-rebuild-single-pass")
+	c02DeferredInsideExecution(c, a)
+}
+
+// c02DeferredInsideExecution: the deferred commands of a task are part of the execution that the dedup function publishes:
+// every invocation of the deferred-command runner lies in the task body (the closure handed to the dedup function, or its
+// tail), so a caller that joined the execution is released only after they ran.
+func c02DeferredInsideExecution(c *Check, a *Anchors) {
+	c.Rule("deferred-inside-execution", "every invocation of the deferred-command runner lies inside the task body handed to the dedup function (never in RunTask around it, nor elsewhere): the execution is published as finished only after its deferred commands ran, so a task call that joined it does not return earlier")
+	n := 0
+	for _, fb := range c.P.BodiesIn(PkgTask) {
+		if fb.Decl == nil {
+			continue
+		}
+		inspectDeep(fb.Body, func(nd ast.Node) bool {
+			call, ok := nd.(*ast.CallExpr)
+			if !ok || !a.is(callee(fb.Info(), call), a.DeferRunner) {
+				return true
+			}
+			n++
+			inside := false
+			for _, part := range a.bodyParts() {
+				if within(call, part.Body) {
+					inside = true
+				}
+			}
+			c.Decide(inside, "deferred-inside-execution", "runs-deferred@"+fnDisplay(fb), call.Pos(), "inside the task body",
+				"the deferred-command runner is invoked outside the closure whose return publishes the execution as finished: a caller that joined the execution (run: once / when_changed) continues while the callee's deferred commands are still running")
+			return true
+		})
+	}
+	c.Floor("deferred-inside-execution", n, 1)
 }
 
 // cmdsLoop finds the loop over t.Cmds in the body closure whose body reaches the command runner.
@@ -175,6 +206,9 @@ func resultFollows(c *Check, a *Anchors, fb *FuncBody, label, rule string, extra
 	for i, r := range f.Returns {
 		st := f.At[r]
 		res := errResult(r)
+		if res != nil {
+			res = unwrapPassThrough(c.P, info, res) // `return x.finish(execute(ctx))` yields execute's outcome when finish hands its argument back
+		}
 		direct := false
 		if call, ok := ast.Unparen(res).(*ast.CallExpr); res != nil && ok && f.Labels[call] == label {
 			direct = true
